@@ -312,13 +312,18 @@ namespace {
 
 void context::complete_response()
 {
-	BOOSTER_VERIF_EMIT("\"e\":\"Resp\",\"x\":%lu,\"kind\":\"sync\",\"reuse\":%s",(unsigned long)((size_t)(this) & 0xFFFFFF),conn_ && conn_->is_reuseable() ? "true" : "false");
 	response().finalize();
 	if(conn_->is_reuseable()) {
+		BOOSTER_VERIF_EMIT("\"e\":\"Resp\",\"x\":%lu,\"kind\":\"sync\",\"reuse\":true",(unsigned long)((size_t)(this) & 0xFFFFFF));
 		booster::shared_ptr<context> cont(new context(conn_));
 		run_ctx rn = { cont };
 		service().post(rn);
 	}
+#ifdef CPPCMS_VERIF
+	else {
+		BOOSTER_VERIF_EMIT("\"e\":\"Resp\",\"x\":%lu,\"kind\":\"sync\",\"reuse\":false",(unsigned long)((size_t)(this) & 0xFFFFFF));
+	}
+#endif
 	conn_.reset();
 }
 // static 
@@ -423,13 +428,22 @@ void context::async_complete_response()
 
 void context::try_restart(bool e)
 {
-	BOOSTER_VERIF_EMIT("\"e\":\"Resp\",\"x\":%lu,\"kind\":\"async\",\"err\":%s,\"reuse\":%s",(unsigned long)((size_t)(this) & 0xFFFFFF),e ? "true" : "false",(!e && conn_ && conn_->is_reuseable()) ? "true" : "false");
+#ifdef CPPCMS_VERIF
+	if(e)
+		BOOSTER_VERIF_EMIT("\"e\":\"Resp\",\"x\":%lu,\"kind\":\"async\",\"err\":true,\"reuse\":false",(unsigned long)((size_t)(this) & 0xFFFFFF));
+#endif
 	if(e) return;
 
 	if(conn_->is_reuseable()) {
+		BOOSTER_VERIF_EMIT("\"e\":\"Resp\",\"x\":%lu,\"kind\":\"async\",\"err\":false,\"reuse\":true",(unsigned long)((size_t)(this) & 0xFFFFFF));
 		booster::shared_ptr<context> cont(new context(conn_));
 		cont->run();
 	}
+#ifdef CPPCMS_VERIF
+	else {
+		BOOSTER_VERIF_EMIT("\"e\":\"Resp\",\"x\":%lu,\"kind\":\"async\",\"err\":false,\"reuse\":false",(unsigned long)((size_t)(this) & 0xFFFFFF));
+	}
+#endif
 	conn_.reset();
 }
 
